@@ -30,6 +30,7 @@ theorem errClass_parse1 : errClass "failed to parse count: %w" = "parse" := by d
 theorem errClass_parse2 : errClass "failed to parse shoot %s: %w" = "parse" := by decide
 theorem errClass_sleep : errClass "%s must follow a request" = "sleepfirst" := by decide
 theorem errClass_notfound : errClass "request %s not found" = "notfound" := by decide
+theorem errClass_toomany : errClass "%s: a scenario may hold at most %d requests" = "toomany" := by decide
 
 /-- `ParseShootName` as regenerated is the model's `parseShootName` -/
 theorem parseShoot_eq (s : List Char) :
@@ -114,8 +115,13 @@ theorem convShoot_eq {ρ} (reqs : List Char → Option ρ) (sh : List Char) (acc
       cases reqs it.name with
       | none => simp [errClass_notfound]
       | some r =>
-        simp only [appendLoop, Int.one_mul, Int.sub_zero, Bool.false_eq_true, if_false]
-        by_cases hp : it.sleep > 0 <;> simp [hp]
+        simp only [appendLoop, Int.one_mul, Int.sub_zero, Bool.false_eq_true, if_false, errClass_toomany]
+        -- the refusal (1eaf10a) in whatever arithmetic form the source states it: decided by `omega`
+        by_cases hc : it.cnt > maxScenarioRequests - (acc.length : Int)
+        · have hg : it.cnt > 1048576 - (acc.length : Int) := by unfold maxScenarioRequests at hc; omega
+          simp [hc, hg]
+        · have hg : ¬ it.cnt > 1048576 - (acc.length : Int) := by unfold maxScenarioRequests at hc; omega
+          by_cases hp : it.sleep > 0 <;> simp [hp, hc, hg]
 
 
 /-- `convertScenarioToAmmo` of the model is the loop over the regenerated body -/
